@@ -402,7 +402,9 @@ pub fn drive<P: Property>(p: &P, tier: Tier) -> i32 {
 
     // ---- generated tier ----------------------------------------------------------------------
     let threads = std::env::var("PVERIF_THREADS").ok().and_then(|s| s.parse::<usize>().ok()).unwrap_or_else(|| p.threads()).max(1);
-    let cases_total = p.cases(tier);
+    // PVERIF_CASES_SCALE: exploratory runs (e.g. the seeded-change matrix) may shrink the budget; registered commands never set it
+    let scale: f64 = std::env::var("PVERIF_CASES_SCALE").ok().and_then(|s| s.parse().ok()).unwrap_or(1.0);
+    let cases_total = ((p.cases(tier) as f64) * scale).max(16.0) as u32;
     let per_thread = (cases_total as usize + threads - 1) / threads;
     let aggs: Mutex<Vec<(usize, ThreadAgg, Option<(P::Case, Violation)>)>> = Mutex::new(vec![]);
     if violations.is_empty() {
